@@ -1,7 +1,7 @@
 CONSTANTS
   MaxLen = 2
   NumRetries = {0, 5}
-  Defects = {"SameHostRetry"}
+  Defects = {"FinalizeOnRetry"}
 SPECIFICATION Spec
 INVARIANTS ActionsAppliedOnce AttemptsBounded FreshHost RetryMade ReplyIsLast
 PROPERTY RetryOnlyIfConfigured
